@@ -15,6 +15,8 @@ pub mod c12;
 pub mod c13;
 pub mod c14;
 pub mod c15;
+pub mod c16;
+pub mod c17;
 pub mod textgen;
 
 pub fn dispatch(id: &str, cfg: Config) -> i32 {
@@ -34,6 +36,8 @@ pub fn dispatch(id: &str, cfg: Config) -> i32 {
         "C13" => crate::run_prop(c13::C13, cfg),
         "C14" => crate::run_prop(c14::C14, cfg),
         "C15" => crate::run_prop(c15::C15, cfg),
+        "C16" => crate::run_prop(c16::C16, cfg),
+        "C17" => crate::run_prop(c17::C17, cfg),
         _ => {
             eprintln!("unknown property {}", id);
             2
